@@ -897,35 +897,88 @@ Verdict run_rot(Case const& c, std::string const& dir)
     mm = std::atoi(c.pattern.substr(3, 2).c_str());
   }
   int64_t const period_ns = (freq == 2 ? 3600ll : 60ll) * 1000000000ll;
-  auto first_point_after = [&](int64_t st_ns) -> int64_t
+  // The first hourly / minutely point strictly after a start instant, in every defensible reading: (1) the next instant at
+  // which the wall clock shows a full hour / minute as time flows (scanned in UTC quarter hours — exact also across a change
+  // of the UTC offset); (2) mktime of "next full hour" with tm_isdst = -1; (3) the same with the tm_isdst that was in effect
+  // at the start (what quill does). They coincide except in the hour before a change of the offset; there a statement pair
+  // is demanded to be separated (or to share a file) only if every reading says so.
+  auto first_points_after = [&](int64_t st_ns) -> std::vector<int64_t>
   {
-    // next top of the hour / minute strictly after the start (in wall-clock terms; offsets are whole minutes... hours for 'H')
+    std::vector<int64_t> out;
+    auto add = [&out](int64_t v)
+    {
+      if (std::find(out.begin(), out.end(), v) == out.end())
+      {
+        out.push_back(v);
+      }
+    };
     time_t t = static_cast<time_t>(st_ns / 1000000000ll);
-    tm tmv;
-    if (gmt)
+    int64_t const step = freq == 3 ? 60 : 900;
+    for (int64_t c = (static_cast<int64_t>(t) / step + 1) * step; c <= static_cast<int64_t>(t) + 3 * 3600; c += step)
     {
-      gmtime_r(&t, &tmv);
+      time_t ct = static_cast<time_t>(c);
+      tm l;
+      if (gmt)
+      {
+        gmtime_r(&ct, &l);
+      }
+      else
+      {
+        localtime_r(&ct, &l);
+      }
+      if (l.tm_sec == 0 && (freq == 3 || l.tm_min == 0))
+      {
+        add(c * 1000000000ll);
+        break;
+      }
     }
-    else
+    for (int mode = 0; mode < 2; ++mode)
     {
-      localtime_r(&t, &tmv);
+      tm tmv;
+      if (gmt)
+      {
+        gmtime_r(&t, &tmv);
+      }
+      else
+      {
+        localtime_r(&t, &tmv);
+      }
+      if (freq == 3)
+      {
+        tmv.tm_min += 1;
+        tmv.tm_sec = 0;
+      }
+      else
+      {
+        tmv.tm_hour += 1;
+        tmv.tm_min = 0;
+        tmv.tm_sec = 0;
+      }
+      if (mode == 0)
+      {
+        tmv.tm_isdst = -1;
+      }
+      add(static_cast<int64_t>(gmt ? timegm(&tmv) : mktime(&tmv)) * 1000000000ll);
     }
-    if (freq == 3)
-    {
-      tmv.tm_min += 1;
-      tmv.tm_sec = 0;
-    }
-    else
-    {
-      tmv.tm_hour += 1;
-      tmv.tm_min = 0;
-      tmv.tm_sec = 0;
-    }
-    tmv.tm_isdst = -1;
-    return static_cast<int64_t>(gmt ? timegm(&tmv) : mktime(&tmv)) * 1000000000ll;
+    return out;
   };
-  int64_t gridA_first = freq >= 2 ? first_point_after(start_ns) : 0;
-  int64_t nextB = gridA_first;
+  struct Grid
+  {
+    int64_t first, nextB;
+  };
+  std::vector<Grid> grids;
+  auto anchor_grids = [&](int64_t st_ns)
+  {
+    grids.clear();
+    for (int64_t f : first_points_after(st_ns))
+    {
+      grids.push_back(Grid{f, f});
+    }
+  };
+  if (freq >= 2)
+  {
+    anchor_grids(start_ns);
+  }
   // per statement: boundary demands relative to the previous statement written by the same instance chain
   struct Demand
   {
@@ -1198,22 +1251,38 @@ Verdict run_rot(Case const& c, std::string const& dir)
           }
           else
           {
-            // reading A: grid points first + n*k*period ; reading B: trigger + k*period
+            // reading A: grid points first + n*k*period ; reading B: trigger + k*period — for every reading of "first"
             int64_t kp = interval * period_ns;
-            bool a_sep = false;
-            if (op.b >= gridA_first)
+            bool all_sep = true, none_sep = true;
+            for (Grid const& g : grids)
             {
-              int64_t n_prev = prev_ts >= gridA_first ? (prev_ts - gridA_first) / kp : -1;
-              int64_t n_cur = (op.b - gridA_first) / kp;
-              a_sep = n_cur > n_prev;
+              bool a_sep = false;
+              if (op.b >= g.first)
+              {
+                int64_t n_prev = prev_ts >= g.first ? (prev_ts - g.first) / kp : -1;
+                int64_t n_cur = (op.b - g.first) / kp;
+                a_sep = n_cur > n_prev;
+              }
+              bool b_sep = op.b >= g.nextB;
+              all_sep = all_sep && a_sep && b_sep;
+              none_sep = none_sep && !a_sep && !b_sep;
             }
-            bool b_sep = op.b >= nextB;
-            d.must = (a_sep && b_sep) ? 1 : ((!a_sep && !b_sep) ? 0 : -1);
+            d.must = all_sep ? 1 : (none_sep ? 0 : -1);
+            if (grids.size() > 1 && d.must < 0)
+            {
+              ++dst_ambiguous_pairs;
+            }
           }
         }
-        if (freq >= 2 && op.b >= nextB)
+        if (freq >= 2)
         {
-          nextB = op.b + interval * period_ns;
+          for (Grid& g : grids)
+          {
+            if (op.b >= g.nextB)
+            {
+              g.nextB = op.b + interval * period_ns;
+            }
+          }
         }
         demands.resize(idx + 1, Demand{-1});
         demands[idx] = d;
@@ -1237,8 +1306,7 @@ Verdict run_rot(Case const& c, std::string const& dir)
         // a restart re-anchors the time schedule at its start instant
         if (freq >= 2)
         {
-          gridA_first = first_point_after(op.b);
-          nextB = gridA_first;
+          anchor_grids(op.b);
         }
         if (freq)
         {
